@@ -705,7 +705,9 @@ impl RadixDivisionParams {
                 for limb in limbs[..limb_count].iter_mut().rev() {
                     (limb.0, carry.0) = div2by1(carry.0, limb.0, &self.reciprocal);
                 }
-                if limbs[limb_count - 1] << lshift < div_limb {
+                // The top quotient limb becomes the high word of the next division only if it is
+                // below the (unshifted) divisor; then `hi << lshift` below cannot lose bits.
+                if limbs[limb_count - 1] < div_limb {
                     hi = limbs[limb_count - 1];
                     limb_count -= 1;
                 } else {
